@@ -28,7 +28,7 @@ Record Elt := mkElt {
   e_pos : E -> E;                (* +x : what UncertainArray.copy() applies to every element *)
   e_isz : E -> bool;             (* x == 0.0 : compares the VALUE of an uncertain number *)
   e_skip : E -> bool;            (* isinstance(x, numbers.Number) and x == 0.0 : a plain-number zero *)
-  e_abs : E -> W;                (* abs(x) *)
+  e_abs : E -> res W;            (* abs(x): a plain number (an external function, hypot, for complex x) *)
   w_zero : W;                    (* 0.0 *)
   w_gt : W -> W -> bool;
   w_ge : W -> W -> bool;
@@ -74,13 +74,14 @@ Section LUModel.
 
   (* ---------------- ludcmp : LU.py 27-108 ---------------- *)
   (* big = 0.0; for j: temp = abs(a[i,j]); big = temp if temp > big else big *)
-  Definition row_big (n : nat) (a : mat) (i : nat) : Wt :=
-    fold_left (fun big j => let temp := e_abs L (a i j) in if w_gt L temp big then temp else big)
-              (seq 0 n) (w_zero L).
+  Definition row_big (n : nat) (a : mat) (i : nat) : res Wt :=
+    foldM (fun big j => temp <- e_abs L (a i j) ;; Ok (if w_gt L temp big then temp else big))
+          (seq 0 n) (w_zero L).
 
   (* vv[i] = 1.0/big ; ZeroDivisionError -> RuntimeError('zero column') *)
   Definition scaling (n : nat) (a : mat) : res (nat -> Wt) :=
-    foldM (fun vv i => match w_recip L (row_big n a i) with
+    foldM (fun vv i => big <- row_big n a i ;;
+                       match w_recip L big with
                        | Ok r => Ok (vupd vv i r)
                        | Err ZeroDivisionError => Err RuntimeError
                        | Err e => Err e
@@ -106,7 +107,8 @@ Section LUModel.
              let '(a, big, imax) := st in
              v <- red_sub (fun k => a i k) (fun k => a k j) (seq 0 j) (a i j) ;;
              let a' := mupd a i j v in
-             let dum := w_mul L (vv i) (e_abs L v) in
+             av <- e_abs L v ;;
+             let dum := w_mul L (vv i) av in
              if w_ge L dum big then Ok (a', dum, Some i) else Ok (a', big, imax))
           (seq j (n - j)) (a, w_zero L, imax).
 
@@ -377,7 +379,7 @@ Section RingElt.
     e_pos := fun x => x;
     e_isz := isz;
     e_skip := skipz;
-    e_abs := absw;
+    e_abs := fun x => Ok (absw x);
     w_zero := w0; w_gt := wgt; w_ge := wge; w_mul := wmul; w_recip := wrecip
   |}.
 End RingElt.
